@@ -175,7 +175,7 @@ Definition split_groups (j : jordan) (indexs : list nat) (nodes : list Q) : res 
   do _ <- assert_ (forallb (fun i => (i <? length j)%nat) indexs);
   do _ <- assert_ (forallb (fun u => negb (out01 u)) nodes);
   do _ <- assert_ (Nat.eqb (length indexs) (length nodes));
-  let pairs := filter (fun iu => negb (near01 (snd iu))) (sort_by pair_le (combine indexs nodes)) in
+  let pairs := split_pairs indexs nodes in
   mapM (fun is_ =>
           let '(i, s) := is_ in
           let ns := map snd (filter (fun iu => Nat.eqb (fst iu) i) pairs) in
